@@ -442,6 +442,10 @@ fn used_type_params<'ty, 'out>(
                 }
             }
         }
+        // `<X as TS>::OptionInnerType`, generated for `optional` fields: the parameters `X` uses
+        Type::Path(TypePath {
+            qself: Some(qself), ..
+        }) => used_type_params(out, &qself.ty, is_type_param),
         _ => (),
     }
 }
